@@ -183,3 +183,49 @@ package schemabuilder
 //@   keeps map[string]argField, argParser             // the parsers called here write their destination, never the parser tables
 //@   assume forall k string :: (k in deref(fields)) ==> deref(fields)[k].parser != nil
 //@   assume forall k string :: (k in deref(fields)) ==> deref(fields)[k].parser.FromJSON != nil
+
+// ---- C11 (filtering): every filter field the query asks for is put into exactly one of the three evaluation groups
+// (batched / expensive / plain) - none is dropped, whatever its batch-with-fallback flag says - with its own name and field.
+//@ func connectionContext.applyTextFilter
+//@   requires c != nil
+//@   keeps map[string]bool, map[string]*graphql.Field, connectionContext     // the flag functions and filters called here do not reach the local tables or the connection description
+//@   ghost cls map[string]bool
+//@   call mapupdate#3 assert arg1 == name && arg2 == filterField
+//@   call mapupdate#4 assert arg1 == name && arg2 == filterField
+//@   call mapupdate#5 assert arg1 == name && arg2 == filterField
+//@   call mapupdate#3 ghost cls[name] = true
+//@   call mapupdate#4 ghost cls[name] = true
+//@   call mapupdate#5 ghost cls[name] = true
+//@   loop 3 invariant forall k string :: visited[k] && (k in filterFields) ==> cls[k]
+
+// ---- C11 (the pipeline of a paginated field): on a non-empty list, filter and sort run (once each, unless the field is
+// externally managed) before the edges are built, the sort sees what the filter returned, the edges are built from what the
+// sort returned, and exactly one of the two page-info steps runs - whatever the page size is, also none at all - before
+// the cursors are set.
+//@ func connectionContext.getConnection
+//@   requires c != nil
+//@   ghost nfilter int
+//@   ghost nsort int
+//@   ghost npage int
+//@   ghost ncursor int
+//@   ghost built bool
+//@   ghost ext1 bool
+//@   ghost ext2 bool
+//@   entry ghost nfilter = 0
+//@   entry ghost nsort = 0
+//@   entry ghost npage = 0
+//@   entry ghost ncursor = 0
+//@   entry ghost built = false
+//@   call connectionContext.IsExternallyManaged#1 ghost ext1 = ret0
+//@   call connectionContext.IsExternallyManaged#2 ghost ext2 = ret0
+//@   call connectionContext.applyTextFilter assert arg2 == nodes
+//@   call connectionContext.applyTextFilter ghost nfilter = nfilter + 1
+//@   call connectionContext.applySort assert arg2 == nodes
+//@   call connectionContext.applySort ghost nsort = nsort + 1
+//@   call connectionContext.nodesToEdges assert arg1 == nodes && (!ext1 ==> nfilter == 1) && (!ext2 ==> nsort == 1)
+//@   call connectionContext.nodesToEdges ghost built = true
+//@   call Connection.paginateManually ghost npage = npage + 1
+//@   call Connection.externallySetPageInfo ghost npage = npage + 1
+//@   call Connection.setCursors assert npage == 1
+//@   call Connection.setCursors ghost ncursor = ncursor + 1
+//@   ensures err == nil && built ==> npage == 1 && ncursor == 1
